@@ -131,6 +131,8 @@ struct Segment {
     /// schedule strings found between the `failing schedule:` quote lines (Err = malformed block)
     schedules: Vec<Result<String, String>>,
     persisted_paths: Vec<String>,
+    /// number of lines ending in `failing schedule:` (robust against interleaved output of OS threads)
+    marker_lines: usize,
 }
 
 struct StderrParse {
@@ -157,6 +159,9 @@ fn parse_stderr(stderr: &str, n_runs: usize) -> StderrParse {
                 Some(k) => &mut segs[k],
                 None => &mut outside,
             };
+            if l.ends_with("failing schedule:") {
+                seg.marker_lines += 1;
+            }
             if l == "failing schedule:" {
                 if i + 3 < lines.len() && lines[i + 1] == "\"" && lines[i + 3] == "\"" {
                     seg.schedules.push(Ok(lines[i + 2].to_string()));
@@ -279,6 +284,7 @@ struct HistoryResult {
     obs: Option<HistoryObs>,
     judgements: Vec<RunJudgement>,
     stderr_schedules: Vec<usize>,
+    stderr_marker_lines: Vec<usize>,
     machinery: Vec<String>,
     replay_children: usize,
     replay_memo_hits: usize,
@@ -304,8 +310,6 @@ type ReplayMemo = Mutex<HashMap<(Kind, bool, String), Outcome>>;
 struct Env {
     scratch: PathBuf,
     memo: Option<ReplayMemo>,
-    /// self-test switch, see `mutate()`
-    mutation: Option<String>,
 }
 
 fn do_replay(env: &Env, z: &mut Zygote, kind: Kind, e: &Emitted, hr: &mut HistoryResult) -> Option<Outcome> {
@@ -359,6 +363,7 @@ fn run_and_judge(env: &Env, z: &mut Zygote, job: usize, runs: &[RunSpec]) -> His
         obs: None,
         judgements: Vec::new(),
         stderr_schedules: Vec::new(),
+        stderr_marker_lines: Vec::new(),
         machinery: Vec::new(),
         replay_children: 0,
         replay_memo_hits: 0,
@@ -410,6 +415,7 @@ fn judge_history(env: &Env, z: &mut Zygote, spec: &HistorySpec, hr: &mut History
     }
     let parsed = parse_stderr(&out.stderr, n);
     hr.stderr_schedules = parsed.segs.iter().map(|s| s.schedules.len()).collect();
+    hr.stderr_marker_lines = parsed.segs.iter().map(|s| s.marker_lines).collect();
     if !parsed.outside.schedules.is_empty() {
         hr.machinery.push(format!(
             "schedule printed outside any run's markers: {}",
@@ -520,10 +526,7 @@ fn judge_history(env: &Env, z: &mut Zygote, spec: &HistorySpec, hr: &mut History
         if seg.schedules.iter().any(|s| s.is_err()) {
             j.syms.push(Sym::Malformed);
         }
-        let mut pers = r.pers;
-        if env.mutation.as_deref() == Some("oracle-expects-file-for-print") && pers == Pers::Print {
-            pers = Pers::File(i);
-        }
+        let pers = r.pers;
         match pers {
             Pers::None => {
                 if n_err > 0 {
@@ -580,7 +583,7 @@ fn judge_history(env: &Env, z: &mut Zygote, spec: &HistorySpec, hr: &mut History
         j.emitted = collect_emitted(spec, seg, &new_files);
         // a portfolio re-raises some member's payload (or trips its own assertion); what a replay must
         // reproduce is the member's failure, i.e. the body's own payload
-        let mut expect = if is_pf {
+        let expect = if is_pf {
             Outcome::Panic {
                 ty: "&str".into(),
                 text: bodies::ORDER_TEXT.to_string(),
@@ -588,12 +591,6 @@ fn judge_history(env: &Env, z: &mut Zygote, spec: &HistorySpec, hr: &mut History
         } else {
             o.outcome.clone()
         };
-        if env.mutation.as_deref() == Some("oracle-expects-other-payload") {
-            expect = Outcome::Panic {
-                ty: "String".into(),
-                text: "something else".into(),
-            };
-        }
         let mut in_place = 0usize;
         let mut in_place_ok = 0usize;
         let mut worst: Option<&'static str> = None;
@@ -986,8 +983,12 @@ fn shared_dir_jobs(jobs: &mut Vec<Vec<RunSpec>>) {
 // the check
 // ------------------------------------------------------------------------------------------------
 
+fn scratch_base() -> PathBuf {
+    PathBuf::from(std::env::var("VX_C12_SCRATCH").unwrap_or_else(|_| "/tmp/builder-c12".to_string()))
+}
+
 fn scratch_dir() -> PathBuf {
-    PathBuf::from(format!("/tmp/builder-c12/run-{}", std::process::id()))
+    scratch_base().join(format!("run-{}", std::process::id()))
 }
 
 fn run_jobs(
@@ -1080,7 +1081,6 @@ pub fn check(tier: Tier) -> ! {
     let env = Arc::new(Env {
         scratch: scratch.clone(),
         memo: if thorough { None } else { Some(Mutex::new(HashMap::new())) },
-        mutation: std::env::var("VX_C12_SELFTEST").ok(),
     });
 
     // ---- enumerate ----
@@ -1103,12 +1103,22 @@ pub fn check(tier: Tier) -> ! {
     let finals: Vec<Kind> = Kind::FAILING.to_vec();
     let rnd = Sched::Random(RANDOM_SEED.wrapping_add(ctx.seed));
     let replay_of = |k: Kind| rr_sched.get(&k).map(|s| Sched::Replay(s.clone()));
+    let solo_scheds = [Sched::RR, Sched::Dfs1];
+    let is_solo = |runs: &[RunSpec]| runs.len() == 1 && runs[0].kind == Kind::Order && runs[0].portfolio.is_none();
     if !thorough {
         for n in 0..=1 {
             fam(&format!("rr/representative/{}-earlier", n), &mut jobs, &|j| {
                 family(j, &finals, &representative, n, &Sched::RR, None, true)
             });
         }
+        fam("shared-directory", &mut jobs, &|j| shared_dir_jobs(j));
+        fam("portfolio", &mut jobs, &|j| portfolio_jobs(j, thorough));
+        // solo runs of the portfolio members (their verdicts define what the portfolio must do)
+        fam("portfolio-member-solo", &mut jobs, &|j| {
+            for s in &solo_scheds {
+                j.push(vec![run(Kind::Order, Pers::None, s)]);
+            }
+        });
         for n in 0..=1 {
             fam(&format!("dfs1/representative/{}-earlier/same-thread", n), &mut jobs, &|j| {
                 family(j, &finals, &representative, n, &Sched::Dfs1, None, false)
@@ -1124,20 +1134,28 @@ pub fn check(tier: Tier) -> ! {
             family(j, &finals, &pass_or_same, 2, &Sched::RR, None, false)
         });
     } else {
-        for n in 0..=2 {
+        for n in 0..=1 {
             fam(&format!("rr/all-kinds/{}-earlier", n), &mut jobs, &|j| {
                 family(j, &finals, &full_alphabet, n, &Sched::RR, None, true)
             });
         }
-        fam("rr/representative/3-earlier", &mut jobs, &|j| {
-            family(j, &finals, &representative, 3, &Sched::RR, None, true)
+        fam("shared-directory", &mut jobs, &|j| shared_dir_jobs(j));
+        fam("portfolio", &mut jobs, &|j| portfolio_jobs(j, thorough));
+        // solo runs of the portfolio members (their verdicts define what the portfolio must do)
+        fam("portfolio-member-solo", &mut jobs, &|j| {
+            for s in &solo_scheds {
+                j.push(vec![run(Kind::Order, Pers::None, s)]);
+            }
+        });
+        fam("rr/all-kinds/2-earlier", &mut jobs, &|j| {
+            family(j, &finals, &full_alphabet, 2, &Sched::RR, None, true)
         });
         for n in 0..=2 {
             fam(&format!("dfs1/representative/{}-earlier", n), &mut jobs, &|j| {
-                family(j, &finals, &representative, n, &Sched::Dfs1, None, true)
+                family(j, &finals, &representative, n, &Sched::Dfs1, None, n < 2)
             });
             fam(&format!("random/representative/{}-earlier", n), &mut jobs, &|j| {
-                family(j, &finals, &representative, n, &rnd, None, true)
+                family(j, &finals, &representative, n, &rnd, None, n < 2)
             });
         }
         for n in 0..=1 {
@@ -1145,21 +1163,13 @@ pub fn check(tier: Tier) -> ! {
                 family(j, &finals, &full_alphabet, n, &Sched::RR, Some(&replay_of), true)
             });
         }
+        // longest histories last: 3 earlier runs, representative subset, same thread
+        fam("rr/representative/3-earlier/same-thread", &mut jobs, &|j| {
+            family(j, &finals, &representative, 3, &Sched::RR, None, false)
+        });
     }
-    fam("shared-directory", &mut jobs, &|j| shared_dir_jobs(j));
-    let n_history_jobs = jobs.len();
-    fam("portfolio", &mut jobs, &|j| portfolio_jobs(j, thorough));
-    // solo runs of the portfolio members (their verdicts define what the portfolio must do)
-    let solo_base = jobs.len();
-    let solo_scheds = [Sched::RR, Sched::Dfs1];
-    for s in &solo_scheds {
-        jobs.push(vec![run(Kind::Order, Pers::None, s)]);
-    }
-    families.push(("portfolio-member-solo".into(), solo_scheds.len()));
-    let _ = n_history_jobs;
-
     // ---- run ----
-    let budget = if thorough { Duration::from_secs(22 * 60) } else { Duration::from_secs(38) };
+    let budget = if thorough { Duration::from_secs(22 * 60) } else { Duration::from_secs(30) };
     let deadline = ctx.start + budget;
     let jobs = Arc::new(jobs);
     let (results, capped) = run_jobs(&env, &jobs, Some(deadline), &mut res.machinery_errors);
@@ -1187,10 +1197,10 @@ pub fn check(tier: Tier) -> ! {
         for m in &r.machinery {
             res.machinery_errors.push(m.clone());
         }
-        if ji >= solo_base {
+        if is_solo(&r.runs) {
             if let Some(o) = &r.obs {
                 solo.insert(
-                    solo_scheds[ji - solo_base].clone(),
+                    r.runs[0].sched.clone(),
                     matches!(o.runs[0].outcome, Outcome::Panic { .. }),
                 );
             }
@@ -1303,7 +1313,7 @@ pub fn check(tier: Tier) -> ! {
     }
 
     // ---- portfolios ----
-    let (pf_runs, pf_classes) = judge_portfolios(&results[..solo_base], &solo, &mut res);
+    let (pf_runs, pf_classes) = judge_portfolios(&results, &solo, &mut res);
 
     // ---- coverage ----
     let mut distinct_nontrivial = classes.len() as u64 + pf_classes;
@@ -1370,7 +1380,7 @@ pub fn check(tier: Tier) -> ! {
     res.assumptions.push("Quick tier: earlier runs are drawn from the representative subset {passing, panic in a spawned thread, lost-notify deadlock, same kind as the judged run}; replays are memoised per (body, string-or-file, schedule text). Thorough tier: all kinds for <= 2 earlier runs, representative subset for 3 earlier runs, every replay executed literally.".into());
     res.assumptions.push("PortfolioRunner: members run on OS threads; bodies hold no lock across a scheduling point so that the stop signal cannot hit F11; the portfolio verdict is compared with the members' measured solo verdicts.".into());
     let _ = std::fs::remove_dir_all(&scratch);
-    let _ = std::fs::remove_dir("/tmp/builder-c12");
+    let _ = std::fs::remove_dir(scratch_base());
     vx::common::finish(&ctx, res)
 }
 
@@ -1437,7 +1447,19 @@ fn judge_portfolios(results: &[Option<HistoryResult>], solo: &BTreeMap<Sched, bo
             ));
         }
         let shape = shape_key(&r.runs, Some(obs), pos).replace("[task-panic]", "");
+        // Two members failing at the same time print from two OS threads at once; std's default panic
+        // hook writes to stderr without taking the lock, so the text of a `failing schedule:` block can
+        // be torn. That race is outside the property; with >= 2 failing members and Print only the
+        // presence of a block is judged, not its text.
+        let racy_print = n_fail >= 2 && r.runs[pos].pers == Pers::Print;
         for s in &j.syms {
+            if racy_print {
+                match s {
+                    Sym::Malformed | Sym::ReplayDiffers(_) => continue,
+                    Sym::NothingEmitted if r.stderr_marker_lines[pos] > 0 => continue,
+                    _ => {}
+                }
+            }
             found.push((format!("C12 portfolio {}: {}", shape, s.text(&dn)), s.text(&dn)));
         }
         classes.insert((
@@ -1500,7 +1522,6 @@ pub fn replay_file(path: &str) -> ! {
     let env = Env {
         scratch: scratch.clone(),
         memo: None,
-        mutation: None,
     };
     println!("history: {}", shape_plain(&runs));
     let mut z = match Zygote::spawn(&scratch, 0) {
@@ -1557,6 +1578,6 @@ pub fn replay_file(path: &str) -> ! {
         }
     }
     let _ = std::fs::remove_dir_all(&scratch);
-    let _ = std::fs::remove_dir("/tmp/builder-c12");
+    let _ = std::fs::remove_dir(scratch_base());
     std::process::exit(0)
 }
